@@ -45,7 +45,7 @@ func genExpScenario(rt *rapid.T) expScenario {
 	for i := 0; i < n; i++ {
 		at += rapid.IntRange(0, 6).Draw(rt, "gap") * 100
 		a := expAction{AtMs: at, Key: pick(rt, keys, "key"), C: rapid.IntRange(0, sc.Colls-1).Draw(rt, "c")}
-		a.K = pick(rt, []string{"Add", "ReAdd", "Set", "SetPreserve", "WriteCas", "Touch", "Touch", "GetAndTouchRaw", "GetAndTouchRaw", "WriteWithXattrs", "Update", "UpdateExp", "UpdateXattrs", "WriteUpdateX", "SetWithMeta", "Delete", "DeleteWithXattrs", "Remove", "Incr", "Reopen"}, "k")
+		a.K = pick(rt, []string{"Add", "ReAdd", "Set", "SetPreserve", "WriteCas", "Touch", "Touch", "GetAndTouchRaw", "GetAndTouchRaw", "WriteWithXattrs", "Update", "UpdateExp", "UpdateXattrs", "WriteUpdateX", "SetWithMeta", "Delete", "DeleteWithXattrs", "Remove", "Incr", "Reopen", "Recreate"}, "k")
 		a.TTL = pick(rt, []int{1, 1, 2, 2, 3, 4, 0, 60, 3600}, "ttl")
 		a.Abs = rapid.Bool().Draw(rt, "abs")
 		if a.K == "Reopen" && !sc.Disk {
@@ -278,6 +278,35 @@ func runExpScenario(sc expScenario, windowSec int) (res expResult) {
 			if err == nil {
 				m.live, m.deadline = false, 0
 			}
+		case "Recreate":
+			// the named collection is dropped and created again: its documents are gone, and what is
+			// written there afterwards expires like anywhere else
+			if sc.Colls < 2 {
+				break
+			}
+			if derr := w.Handles[0].DropDataStore(dsName(allCollNames[1])); derr != nil {
+				bad("exp.recreate", "DropDataStore failed: %v", derr)
+				break
+			}
+			w.colls[0][1] = nil
+			if cerr := w.Handles[0].CreateDataStore(ctx, dsName(allCollNames[1])); cerr != nil {
+				bad("exp.recreate", "CreateDataStore failed: %v", cerr)
+				break
+			}
+			for k, km := range model {
+				if k.c == 1 {
+					km.live, km.deadline = false, 0
+				}
+			}
+			args := sgbucket.FeedArguments{ID: fmt.Sprintf("expR%d", a.AtMs), Backfill: sgbucket.FeedNoBackfill, Terminator: make(chan bool)}
+			_ = w.RColl(0, 1).StartDCPFeed(ctx, args, func(ev sgbucket.FeedEvent) bool {
+				if ev.Opcode == sgbucket.FeedOpDeletion {
+					fmu.Lock()
+					delEvents[evKey{1, string(ev.Key)}] = append(delEvents[evKey{1, string(ev.Key)}], ev.Cas)
+					fmu.Unlock()
+				}
+				return true
+			}, nil)
 		case "Reopen":
 			if rerr := w.Reopen(); rerr != nil {
 				bad("exp.reopen", "reopen failed: %v", rerr)
